@@ -75,6 +75,16 @@ func verifRoot() string {
 	return "/verif"
 }
 
+// outRoot: where evidence and replay files go. VERIF_OUT redirects them (used
+// by the mutation sweep, which runs checks against scratch copies of the
+// repository and must not overwrite the evidence of the real tree).
+func outRoot(root string) string {
+	if d := os.Getenv("VERIF_OUT"); d != "" {
+		return d
+	}
+	return root
+}
+
 // Start parses the common flags. Extra flags may be registered on flag.CommandLine
 // before calling it.
 func Start(id, level string) *Run {
@@ -383,7 +393,7 @@ func (r *Run) Finish() {
 	if err != nil {
 		Harness("evidence: %v", err)
 	}
-	evdir := filepath.Join(r.root, "evidence")
+	evdir := filepath.Join(outRoot(r.root), "evidence")
 	os.MkdirAll(evdir, 0o777)
 	if err := os.WriteFile(filepath.Join(evdir, r.ID+".json"), append(data, '\n'), 0o666); err != nil {
 		Harness("write evidence: %v", err)
@@ -423,7 +433,7 @@ func summary(cov map[string]any) string {
 }
 
 func (r *Run) writeReplay(v V) string {
-	dir := filepath.Join(r.root, "replays")
+	dir := filepath.Join(outRoot(r.root), "replays")
 	os.MkdirAll(dir, 0o777)
 	h := sha256.Sum256([]byte(v.Key))
 	path := filepath.Join(dir, fmt.Sprintf("%s-%x.json", r.ID, h[:6]))
